@@ -406,9 +406,14 @@ impl StreamFault {
 
     /// One large structure (around 2^16 / 2^17 elements) with sampled fault points and coarse chunking.
     pub fn generate_large(rng: &mut Rng) -> StreamFault {
-        let base = *rng.pick(&[1usize << 16, 1 << 16, 1 << 17]);
+        let huge = rng.chance(1, 4);
+        let base = if huge { (1usize << 21) + (1 << 16) } else { *rng.pick(&[1usize << 16, 1 << 16, 1 << 17]) };
         let words = match rng.below(4) { 0 => base - 1, 1 => base, 2 => base + 1, _ => base + rng.range_usize(2, 3000) };
-        let payload = gen_large_payload(rng, words);
+        let payload = if huge {
+            // More than 16 MiB of bytes: the size class where "do not trust the length header" code paths begin.
+            let c = Content { len: 8 * words + rng.range_usize(0, 7), pat: crate::content::Pat::Counter, salt: rng.next() & 0xFFFF };
+            Payload { leaf: if rng.bool() { Leaf::Bytes(c) } else { Leaf::Str(c) }, opt: rng.below(2) as u8, none_at: None }
+        } else { gen_large_payload(rng, words) };
         let clause = if payload.opt > 0 && rng.bool() { *rng.pick(&[FaultClause::SkipTrunc, FaultClause::SkipErr]) } else { *rng.pick(&[FaultClause::LoadTrunc, FaultClause::LoadTrunc, FaultClause::LoadErr, FaultClause::SerErr, FaultClause::SerZero]) };
         let chunk = match rng.below(4) { 0 => Chunk::Unbounded, 1 => Chunk::Max(1 << 16), 2 => Chunk::Align(1 << 16), _ => Chunk::Seq(vec![100_000, 4096, 1 << 20, 65_537]) };
         let kind = match clause { FaultClause::LoadErr | FaultClause::SkipErr => *rng.pick(&READ_KINDS), _ => *rng.pick(&WRITE_KINDS) };
@@ -445,7 +450,9 @@ fn sample_points_of(n: usize) -> Vec<usize> {
     let mut ks: Vec<usize> = Vec::new();
     around(&mut ks, 0, n);
     around(&mut ks, n.saturating_sub(1), n);
-    for unit in [4096usize, 1 << 16, 1 << 20] {
+    // Tens of megabytes: one load costs milliseconds, so only the coarse boundaries and a thinner spread.
+    let units: &[usize] = if n > (4 << 20) { &[1 << 20, 1 << 24] } else { &[4096, 1 << 16, 1 << 20] };
+    for &unit in units {
         let mut c = unit;
         while c < n + unit && ks.len() < 6000 { around(&mut ks, c, n); c += unit; }
     }
@@ -488,7 +495,7 @@ fn mask_of(bv: &BitVector) -> u8 {
 fn answers(bv: &BitVector, mask: u8) -> Vec<u64> {
     let mut out = Vec::new();
     let n = bv.len();
-    let pts: Vec<usize> = { let mut v: Vec<usize> = (0..=16).map(|k| if n == 0 { 0 } else { (n - 1) * k / 16 }).collect(); v.extend([0usize, 63, 64, 511, 512, 4095, 4096].iter().filter(|x| **x < n)); v.sort_unstable(); v.dedup(); v };
+    let pts: Vec<usize> = { let mut v: Vec<usize> = (0..=16u128).map(|k| if n == 0 { 0 } else { ((n as u128 - 1) * k / 16) as usize }).collect(); v.extend([0usize, 63, 64, 511, 512, 4095, 4096].iter().filter(|x| **x < n)); v.sort_unstable(); v.dedup(); v };
     out.push(n as u64); out.push(bv.count_ones() as u64);
     for &i in pts.iter() { if i < n { out.push(bv.get(i) as u64); } }
     if mask & 1 != 0 { for &i in pts.iter() { out.push(bv.rank(i) as u64); } out.push(bv.rank(n) as u64); }
@@ -643,8 +650,9 @@ pub mod foreign {
         raw(b, pos, out)
     }
 
-    /// BitVector: ones, RawVector, 3 x Option. `keep` is a mask of the optional structures to keep.
-    pub fn bitvector(b: &[u8], pos: &mut usize, out: &mut Vec<u8>, keep: u8) -> Option<()> {
+    /// BitVector: ones, RawVector, 3 x Option. `keep` yields, per embedded bitvector, the mask of optional structures to keep.
+    pub fn bitvector(b: &[u8], pos: &mut usize, out: &mut Vec<u8>, keep: &mut dyn FnMut() -> u8) -> Option<()> {
+        let keep = keep();
         copy(b, pos, 1, out)?;
         raw(b, pos, out)?;
         for i in 0..3 {
@@ -660,20 +668,20 @@ pub mod foreign {
         Some(())
     }
 
-    pub fn sparse(b: &[u8], pos: &mut usize, out: &mut Vec<u8>, keep: u8) -> Option<()> {
+    pub fn sparse(b: &[u8], pos: &mut usize, out: &mut Vec<u8>, keep: &mut dyn FnMut() -> u8) -> Option<()> {
         copy(b, pos, 1, out)?;
         bitvector(b, pos, out, keep)?;
         int(b, pos, out)
     }
 
-    pub fn wm_core(b: &[u8], pos: &mut usize, out: &mut Vec<u8>, keep: u8) -> Option<()> {
+    pub fn wm_core(b: &[u8], pos: &mut usize, out: &mut Vec<u8>, keep: &mut dyn FnMut() -> u8) -> Option<()> {
         let width = elem(b, *pos)? as usize;
         copy(b, pos, 1, out)?;
         for _ in 0..width { bitvector(b, pos, out, keep)?; }
         Some(())
     }
 
-    pub fn wm(b: &[u8], pos: &mut usize, out: &mut Vec<u8>, keep: u8) -> Option<()> {
+    pub fn wm(b: &[u8], pos: &mut usize, out: &mut Vec<u8>, keep: &mut dyn FnMut() -> u8) -> Option<()> {
         copy(b, pos, 1, out)?;
         wm_core(b, pos, out, keep)?;
         int(b, pos, out)
@@ -686,6 +694,10 @@ pub struct Foreign {
     pub payload: Payload,
     /// Mask of support structures the foreign writer keeps in embedded bitvectors (0 = none).
     pub keep: u8,
+    /// If set, every embedded bitvector gets its own mask derived from this seed (levels of a wavelet matrix
+    /// written with different support subsets), and `keep` is ignored.
+    #[serde(default)]
+    pub keep_seed: Option<u64>,
     pub r: ReadPlan,
 }
 
@@ -698,9 +710,11 @@ impl Foreign {
             if matches!(p.leaf, Leaf::Bv { .. } | Leaf::Sparse { .. } | Leaf::WmCore { .. } | Leaf::Wm { .. }) { break; }
             p = gen_payload(rng, &cfg);
         }
-        p.opt = 0; p.none_at = None;
+        // Bare, or as the value of an Option (whose size header the foreign writer has to recompute).
+        p.opt = if rng.chance(1, 3) { 1 } else { 0 }; p.none_at = None;
         let keep = if rng.chance(2, 3) { 0 } else { rng.below(8) as u8 };
-        Foreign { payload: p, keep, r: ReadPlan::generate(rng, 32) }
+        let keep_seed = if rng.chance(1, 4) { Some(rng.next() & 0xFFFF) } else { None };
+        Foreign { payload: p, keep, keep_seed, r: ReadPlan::generate(rng, 32) }
     }
 
     pub fn run(&self, prop: &str) -> Outcome {
@@ -711,14 +725,38 @@ impl Foreign {
         let tn = val.type_name();
         let bytes = match catch(|| val.serialize_vec()) { Ok(Ok(b)) => b, _ => return out.fail(v("harness", "serialize", "serialize failed".into())) };
         let mut stripped: Vec<u8> = Vec::new();
-        let mut pos = 0usize;
+        let wrapped = self.payload.opt == 1;
+        let mut pos = if wrapped { 8usize } else { 0 };
+        let mut counter = 0u64;
+        let uniform = self.keep;
+        let seed = self.keep_seed;
+        let mut first_mask: Option<u8> = None;
+        let mut masks_differ = false;
+        let mut keep_fn = || -> u8 {
+            let m = match seed {
+                None => uniform,
+                Some(sd) => { let mut st = sd.wrapping_add(counter.wrapping_mul(0x9E37_79B9_7F4A_7C15)); let x = crate::rng::splitmix(&mut st); match x % 4 { 0 => 7, 1 => 0, _ => (x >> 8) as u8 & 7 } },
+            };
+            counter += 1;
+            match first_mask { None => first_mask = Some(m), Some(f) => if f != m { masks_differ = true; } }
+            m
+        };
         let ok = match &self.payload.leaf {
-            Leaf::Bv { .. } => foreign::bitvector(&bytes, &mut pos, &mut stripped, self.keep),
-            Leaf::Sparse { .. } => foreign::sparse(&bytes, &mut pos, &mut stripped, self.keep),
-            Leaf::WmCore { .. } => foreign::wm_core(&bytes, &mut pos, &mut stripped, self.keep),
-            Leaf::Wm { .. } => foreign::wm(&bytes, &mut pos, &mut stripped, self.keep),
+            Leaf::Bv { .. } => foreign::bitvector(&bytes, &mut pos, &mut stripped, &mut keep_fn),
+            Leaf::Sparse { .. } => foreign::sparse(&bytes, &mut pos, &mut stripped, &mut keep_fn),
+            Leaf::WmCore { .. } => foreign::wm_core(&bytes, &mut pos, &mut stripped, &mut keep_fn),
+            Leaf::Wm { .. } => foreign::wm(&bytes, &mut pos, &mut stripped, &mut keep_fn),
             _ => return out.fail(v("harness", "foreign", "unsupported leaf".into())),
         };
+        if wrapped {
+            // The option's size header counts the elements of the (now smaller) body.
+            let mut with_header = ((stripped.len() / 8) as u64).to_le_bytes().to_vec();
+            with_header.extend_from_slice(&stripped);
+            stripped = with_header;
+            out.stats.probe("foreign composite inside an Option");
+        }
+        out.stats.probe_if(masks_differ, "embedded bitvectors written with different support subsets");
+        let effective_keep = first_mask.unwrap_or(self.keep);
         if ok.is_none() || pos != bytes.len() {
             // The library's own bytes do not parse by the documented field order. That is a format question (C07), not this property.
             out.stats.probe("foreign composer could not parse the library's bytes (not judged here)");
@@ -739,10 +777,11 @@ impl Foreign {
         let is_bv = matches!(self.payload.leaf, Leaf::Bv { .. });
         if is_bv {
             // A plain bitvector reports exactly the subset present in the file.
-            let l = loaded.as_any().downcast_ref::<crate::payload::Holder<BitVector>>().map(|h| mask_of(&h.0));
+            let l = loaded.as_any().downcast_ref::<crate::payload::Holder<BitVector>>().map(|h| mask_of(&h.0))
+                .or_else(|| loaded.as_any().downcast_ref::<crate::payload::Holder<Option<BitVector>>>().and_then(|h| h.0.as_ref().map(mask_of)));
             let orig = if let Leaf::Bv { supports, .. } = self.payload.leaf { supports } else { 0 };
-            if l != Some(orig & self.keep) {
-                return out.fail(v("supports-mismatch", tn, format!("file carries supports {:03b}, loaded value reports {:?}", orig & self.keep, l)));
+            if l != Some(orig & effective_keep) {
+                return out.fail(v("supports-mismatch", tn, format!("file carries supports {:03b}, loaded value reports {:?}", orig & effective_keep, l)));
             }
         } else {
             // Composite structures must work: equal to the library-built value, same answers.
@@ -779,8 +818,10 @@ impl Foreign {
 
     pub fn simpler(&self) -> Vec<Foreign> {
         let mut out = Vec::new();
-        for p in self.payload.simpler() { let mut s = self.clone(); s.payload = p; out.push(s); }
+        for p in self.payload.simpler() { if p.opt <= 1 && p.none_at.is_none() { let mut s = self.clone(); s.payload = p; out.push(s); } }
         if self.keep != 0 { let mut s = self.clone(); s.keep = 0; out.push(s); }
+        if self.keep_seed.is_some() { let mut s = self.clone(); s.keep_seed = None; out.push(s); }
+        if self.payload.opt == 1 { let mut s = self.clone(); s.payload.opt = 0; out.push(s); }
         if !self.r.chunk.is_unbounded() || !self.r.eintr.is_empty() { let mut s = self.clone(); s.r = ReadPlan::plain(); out.push(s); }
         out
     }
